@@ -93,6 +93,10 @@ def judge_series(field, impl, ref, stats, upto=None):
             continue
         if got is None:
             return Violation("reading-missing-where-defined", field, f"index {i}: no reading, definition gives {want!r}")
+        if not is_num(got):
+            return Violation("reading-not-numeric", field, f"index {i}: {got!r}")
+        if got != got or got in (float("inf"), float("-inf")):
+            return Violation("reading-not-finite", field, f"index {i}: {got!r}")
         if want is ANY:
             stats["singular_points"] = stats.get("singular_points", 0) + 1
             continue
